@@ -56,7 +56,7 @@ func (p *prop) Run(line string) core.Outcome {
 	}
 	f := strings.Split(line, " ")
 	switch f[0] {
-	case "adapt", "madapt", "perm", "eqv", "leak", "site", "hist", "argidx", "bind", "rename", "sopts", "lnp", "hp", "dbind", "nr", "kbind", "nmeq":
+	case "adapt", "madapt", "perm", "eqv", "leak", "site", "hist", "argidx", "bind", "rename", "sopts", "lnp", "hp", "dbind", "nr", "kbind", "nmeq", "dadapt", "fauth":
 		// cases that run the adapter can die of a fatal (unrecoverable) Go error
 		switch noteCase(line) {
 		case "crash":
@@ -153,6 +153,16 @@ func (p *prop) Run(line string) core.Outcome {
 		if len(f) == 3 {
 			if t, err := core.UnHex(f[1]); err == nil {
 				return runPerm(line, t, f[2])
+			}
+		}
+	case "fauth":
+		if len(f) == 2 {
+			return runFauth(line, f[1])
+		}
+	case "dadapt":
+		if len(f) == 2 {
+			if t, err := core.UnHex(f[1]); err == nil && core.Hex(t) == f[1] {
+				return runDadapt(line, t)
 			}
 		}
 	case "nmeq":
